@@ -361,6 +361,43 @@ const U7_HALF_SCALE: u8 = 1 << 6;
 /// If the user mashes dowm more notes than this, some information may be lost
 const HELD_DOWN_NOTE_BUFFER_LEN: usize = 32;
 
+#[cfg(feature = "verif-hooks")]
+impl MonoMidiReceiver {
+    /// `(channel, rising latch, falling latch, retrigger allowed, priority 0/1/2 = last/high/low, held notes)`
+    pub fn verif_state(&self) -> (u8, bool, bool, bool, u8, &[u8]) {
+        (
+            self.channel,
+            self.rising_gate,
+            self.falling_gate,
+            self.retrigger_mode == RetriggerMode::AllowRetrigger,
+            match self.note_priority {
+                NotePriority::Last => 0,
+                NotePriority::High => 1,
+                NotePriority::Low => 2,
+            },
+            &self.held_down_notes,
+        )
+    }
+
+    pub fn verif_parser(&self) -> &MidiByteStreamParser {
+        &self.parser
+    }
+
+    pub const VERIF_CC: [u8; 9] = [
+        CC_MOD_WHEEL,
+        CC_VOLUME,
+        CC_VCF_CUTOFF,
+        CC_VCF_RESONANCE,
+        CC_PORTAMENTO_TIME,
+        CC_PORTAMENTO_SWITCH,
+        CC_SUSTAIN_SWITCH,
+        CC_ALL_CONTROLLERS_OFF,
+        CC_ALL_NOTES_OFF,
+    ];
+    pub const VERIF_U7_HALF_SCALE: u8 = U7_HALF_SCALE;
+    pub const VERIF_HELD_DOWN_NOTE_BUFFER_LEN: usize = HELD_DOWN_NOTE_BUFFER_LEN;
+}
+
 #[cfg(test)]
 mod tests {
     use super::*;
